@@ -40,6 +40,7 @@ CONSTANTS N1,                  \* size of the home LAN (net1 = 0..N1-1)
                                \*   "selfree"   a select on a free lease is answered with NAK
                                \*   "stale"     a free lease forgets its stale offer
                                \*   "shadow"    findByIP skips free leases (they keep their last address)
+                               \*   "reserved"  allocation refuses our own and the router's address whatever the session tracks
                                \*   "net2edge"  the loader does not attach net2's own network / broadcast address to net2
 
 VARIABLES lease,     \* CIDs -> Nil | [st, mac, ip, offer, xid, net, exp]      Handler.table
@@ -126,12 +127,13 @@ Matches(L, a)          == {j \in CIDs : L[j] # Nil /\ (\/ (L[j].ip = a /\ ("shad
                                                            \/ ("offers" \in Fixed /\ L[j].st = "discover" /\ L[j].offer = a))}
 NotBlockedReq(L, a, k) == LET M == Matches(L, a) IN M = {} \/ \E j \in M : L[j].st = "free" \/ j = k
 NotBlockedScan(L, a)   == LET M == Matches(L, a) IN M = {} \/ \E j \in M : L[j].st = "free"
-FreeAddr(s, a)         == NotBlockedScan(s.lease, a) /\ HostAt(s.hosts, a) = NoMac
+Reserved(a)            == "reserved" \in Fixed /\ a \in {HostA, RouterA}       \* never leased, whatever the session tracks
+FreeAddr(s, a)         == NotBlockedScan(s.lease, a) /\ HostAt(s.hosts, a) = NoMac /\ ~Reserved(a)
 
 \* lease.go allocIPOffer: requested address, cursor scan, wrap-around
 Alloc(s, k, req) ==
   LET n == s.lease[k].net
-  IN IF req # NoA /\ NotBlockedReq(s.lease, req, k) /\ HostAt(s.hosts, req) = NoMac
+  IN IF req # NoA /\ NotBlockedReq(s.lease, req, k) /\ HostAt(s.hosts, req) = NoMac /\ ~Reserved(req)
         /\ ("reqrange" \in Fixed => req >= First(n) /\ req < Hi(n))
      THEN [ok |-> TRUE, s |-> [s EXCEPT !.lease[k].offer = req]]
      ELSE LET c2 == {a \in s.next[n]..(Hi(n) - 1) : FreeAddr(s, a)}
@@ -333,7 +335,7 @@ Cause(g, e, r, A, O, h0) ==
      ELSE IF "net2edge" \notin Fixed /\ g = "C11_NotReserved" /\ a = Net2Lo /\ a # 0 /\ had
      THEN "KF_Net2NetworkAddrKept"    \* the netfilter subnet's network address is an ordinary host address of the home LAN: a client
                                       \* that holds it keeps it when it is captured and the lease is re-attached to net2 (reload)
-     ELSE IF g = "C11_NotReserved" /\ a \in {HostA, RouterA}
+     ELSE IF "reserved" \notin Fixed /\ g = "C11_NotReserved" /\ a \in {HostA, RouterA}
      THEN "KF_ReservedBySessionOnly"  \* our / the router's address is protected by the session's host entry only (and only
                                       \* at allocation time): it got out while the session did not track it for its owner
      ELSE IF "selfree" \notin Fixed /\ e.kind = "request" /\ e.sid = "us" /\ r.t = "ack" /\ ~lease0 /\ (O[k].offer = NoA \/ O[k].old \/ O[k].void)
